@@ -18,7 +18,7 @@ META = {
 def jobs(tier):
     q = tier == "quick"
     out = []
-    temps = ["t_macro_sub", "t_seqfirst"] if q else ["t_macro_sub", "t_alias_macro", "t_blocks", "t_loop_sub", "t_seqfirst", "t_float"]
+    temps = ["t_macro_sub", "t_seqfirst"] if q else ["t_macro_sub", "t_alias_macro", "t_blocks", "t_loop_sub", "t_seqfirst", "t_float", "t_macro_empty", "t_macro_twice"]
     n = len(OPS)
     for t in temps:
         shrink = {}
@@ -34,6 +34,14 @@ def jobs(tier):
                                  extra_params=[("op2", "int")], extra_pre=[f"0 <= op2 < {n - 2}"], functions=FUNCS, timeout=300 if q else 1500,
                                  name=f"c11_history_nobound_{t}_{OPS[op1]}", base="c11_history",
                                  note=f"{t} over a gate set without prepare_all/measure_all: {OPS[op1]} then any second operation (emulation excluded) on the same circuit object"))
+        if t in (("t_seqfirst",) if q else ("t_seqfirst", "t_blocks", "t_macro_empty")):
+            # the program as written (not bracketed for execution, anonymous gates): a plain block is the first
+            # statement of the top level, macro calls follow
+            for op1 in ((0, 6) if q else (0, 1, 2, 5, 6)):
+                out.extend(tjobs(f"{H}:c11_history", t, tier, shrink=shrink, fixed={"native": 0, "op1": op1, "op3": -1},
+                                 extra_params=[("op2", "int")], extra_pre=[f"0 <= op2 < {n - 2}"], functions=FUNCS, timeout=300 if q else 1500,
+                                 name=f"c11_history_anon_{t}_{OPS[op1]}", base="c11_history",
+                                 note=f"{t} as written, without a native gate set: {OPS[op1]} then any second operation (emulation excluded) on the same circuit object"))
         for op1 in range(n):
             out.extend(tjobs(f"{H}:c11_history", t, tier, shrink=shrink, fixed={"native": True, "op1": op1, "op3": -1},
                              extra_params=[("op2", "int")], extra_pre=[f"0 <= op2 < {n}"], functions=FUNCS, timeout=300 if q else 1500,
